@@ -38,6 +38,11 @@ func splitHexList(s string) []string {
 	return out
 }
 
+// contexts of the typed prefix: text before it and text after it on the same line (the program stays valid)
+var c14Contexts = [][2]string{{"local zq = ", ""}, {"local zq = \"s\"..", ""}, {"local zq = print..", ""}, {"local zq = 1 + ", ""}, {"local zq = 1+", ""},
+	{"local zq = -", ""}, {"local zq = #", ""}, {"local zq = not ", ""}, {"local zq = (", ")"}, {"print(", ")"}, {"local zq = {", "}"}, {"local zq = { 1, ", " }"},
+	{"local zq = print(1, ", ")"}, {"local zq = 1 == ", ""}, {"local zq = 2 .. ", ""}, {"zq = ", ""}, {"local zq = zq2 or ", ""}, {"local zq = zq2[", "]"}}
+
 func runC14(res *lib.Result, tier string, seed int64, args []string) error {
 	nProg, nPos := 120, 6
 	if tier == "thorough" {
@@ -83,7 +88,14 @@ func runC14(res *lib.Result, tier string, seed int64, args []string) error {
 			if nonUnique {
 				prefix = []string{"a", "b", "c", "x", "y", "v"}[r.Intn(6)]
 			}
-			ins := indent + "local zq = " + prefix
+			// what stands directly before (and after) the typed prefix on the cursor line
+			ctx := c14Contexts[0]
+			if r.Chance(1, 2) {
+				ctx = c14Contexts[r.Intn(len(c14Contexts))]
+			}
+			res.Dist("context." + ctx[0] + "…" + ctx[1])
+			ins := indent + ctx[0] + prefix
+			tail := ctx[1]
 			var nl []string
 			nl = append(nl, lines[:at]...)
 			rest := lines[at:]
@@ -92,16 +104,16 @@ func runC14(res *lib.Result, tier string, seed int64, args []string) error {
 			if at < len(lines) && r.Chance(1, 3) {
 				t := strings.TrimSpace(lines[at])
 				if t == "end" || strings.HasPrefix(t, "until ") || t == "else" || strings.HasPrefix(t, "elseif ") || strings.HasPrefix(t, "end)") {
-					nl = append(nl, ins+" "+t)
+					nl = append(nl, ins+tail+" "+t)
 					rest = lines[at+1:]
 					res.Dist("cursor.on-last-line-of-block")
 					ins = ""
 				}
 			}
 			if ins != "" {
-				nl = append(nl, ins)
+				nl = append(nl, ins+tail)
 			} else {
-				ins = indent + "local zq = " + prefix
+				ins = indent + ctx[0] + prefix
 			}
 			nl = append(nl, rest...)
 			src := strings.Join(nl, "\n") + "\n"
@@ -161,7 +173,12 @@ func runC14(res *lib.Result, tier string, seed int64, args []string) error {
 			}
 			offered := map[string]bool{}
 			for _, it := range items {
-				offered[it.Label] = true
+				l := it.Label
+				if strings.HasSuffix(ctx[0], "#") {
+					// after the length operator the server prepends '#' to every label (the client replaces '#pre')
+					l = strings.TrimPrefix(l, "#")
+				}
+				offered[l] = true
 			}
 			nontrivial := false
 			// (1) visible locals with the prefix must be offered
